@@ -4,7 +4,7 @@ from . import monitors as M
 
 PLAN = [('slowbody', 6, 2), ('misuse', 8, 3), ('faults', 10, 2), ('healthy', 8, 1)]
 MONITORS = [M.mon_accept_once, M.mon_roundtrip, M.mon_refusal_inert, M.mon_direct, M.mon_one_outcome, M.mon_accept_current]
-THEOREMS = "C02_wrong_id_inert, C02_second_submission_inert, C02_accept_only_current, C02_refusal_inert_counterexample, C02_unissued_id_refused_run"
+THEOREMS = "C02_wrong_id_inert, C02_second_submission_inert, C02_accept_only_current, C02_refusal_inert_counterexample, C02_unissued_id_refused_run, C02_older_ids_refused_run"
 CORPUS = ['C02']
 
 
